@@ -201,6 +201,43 @@ theorem spliceOut_of_loc_nil (lc : Loc f.roots h [] l k r) (nd : f.allHandles.No
   rw [get?_of_loc lc nd]
   simp only [isRoot_of_loc_nil lc, if_true, filter_ne_of_loc_nil lc nd]
 
+/-! #### The same with `path ≠ []` instead of a syntactic `cons` -/
+
+theorem isRoot_of_loc_ne (lc : Loc f.roots h path l k r) (hne : path ≠ [])
+    (nd : f.allHandles.Nodup) : f.isRoot h = false := by
+  cases path with
+  | nil => exact absurd rfl hne
+  | cons fr rest => exact isRoot_of_loc_cons lc nd
+
+theorem placeAfter_of_loc_ne (t : HTree) (lc : Loc f.roots h path l k r) (hne : path ≠ [])
+    (nd : f.allHandles.Nodup) :
+    f.placeAfter h t = { f with roots := plug path (l ++ k :: t :: r) } := by
+  cases path with
+  | nil => exact absurd rfl hne
+  | cons fr rest => exact placeAfter_of_loc t lc nd
+
+theorem placeBefore_of_loc_ne (t : HTree) (lc : Loc f.roots h path l k r) (hne : path ≠ [])
+    (nd : f.allHandles.Nodup) :
+    f.placeBefore h t = { f with roots := plug path (l ++ t :: k :: r) } := by
+  cases path with
+  | nil => exact absurd rfl hne
+  | cons fr rest => exact placeBefore_of_loc t lc nd
+
+theorem spliceOut_of_loc_ne (lc : Loc f.roots h path l k r) (hne : path ≠ [])
+    (nd : f.allHandles.Nodup) :
+    f.spliceOut h = { f with roots := plug path (l ++ k.kids ++ r) } := by
+  cases path with
+  | nil => exact absurd rfl hne
+  | cons fr rest => exact spliceOut_of_loc_cons lc nd
+
+theorem ctx?_of_loc_ne (lc : Loc f.roots h path l k r) (hne : path ≠ [])
+    (nd : f.allHandles.Nodup) : ∃ p, f.ctx? h = some ⟨p, l, k, r⟩ := by
+  rcases List.eq_nil_or_concat path with h0 | ⟨init, fr, h0⟩
+  · exact absurd h0 hne
+  · rw [List.concat_eq_append] at h0
+    subst h0
+    exact ⟨fr.h, ctx?_of_loc_snoc lc nd⟩
+
 end located
 
 /-! ### Handle bookkeeping -/
